@@ -1,11 +1,11 @@
 --------------------------- MODULE MC_Retransmit ---------------------------
 EXTENDS Retransmit, Json
 VARIABLES s, hist, stopAt
-Init == s = S0 /\ hist = <<>> /\ stopAt = 0
+Init == \E q \in QueuedMs : s = SQ(q) /\ hist = (IF q = 0 THEN <<>> ELSE <<[a |-> "queue", t |-> q]>>) /\ stopAt = 0
 \* every history of events; after an ack / rst / cancel / return no further copy may appear
 Next == /\ \E a \in EnvActs : \E t \in EnvApply(s, a) : s' = t /\ hist' = Append(hist, a)
         /\ stopAt' = IF stopAt = 0 /\ (s'.acked \/ s'.rst \/ s'.cancelled \/ s'.pc \in {"ok", "err"}) THEN Len(s'.copies) ELSE stopAt
-        /\ Len(hist) < 9
+        /\ Len(hist) < 9 + (IF s.queued > 0 THEN 1 ELSE 0)
 View == <<s, stopAt, Len(hist)>>
 Inv_Bound == D06_Bound(s)
 Inv_Spacing == D06_Spacing(s)
